@@ -76,8 +76,8 @@ class Map(object):
         return (self.tag, value)
 
 
-POOL = [0, None, "", [], {}, False, 0.0, (), b"", (None, {}), ("", {"a": {}}), float("inf"), u"\xe9", 10 ** 30,
-        frozenset(), (0, {"c": None}), [[]], -1, 1.5, "x" * 70]
+FALSY = [0, None, "", [], {}, False, 0.0, (), b"", frozenset()]
+OTHER = [(None, {}), ("", {"a": {}}), float("inf"), u"\xe9", 10 ** 30, (0, {"c": None}), [[]], -1, 1.5, "x" * 70, {"k": (1, 2)}]
 
 
 def src_values(kind, r, n):
@@ -87,11 +87,8 @@ def src_values(kind, r, n):
     if kind == "ctx":
         return [(r * 100 + i, {"run": r, "i": i, "d": {"k": [i, None]}}) for i in range(n)]
     if kind == "mixed":
-        res = []
-        for i in range(n):
-            item = POOL[(r * 7 + i * 3) % len(POOL)]
-            res.append(item if i % 2 == 0 else (item, {"r": r, "i": i}))
-        return res
+        # even positions: bare falsy values (None first); odd positions: (data, context) pairs tagged with the run
+        return [FALSY[(r + i // 2) % len(FALSY)] if i % 2 == 0 else (OTHER[(r + i) % len(OTHER)], {"r": r, "i": i}) for i in range(n)]
     raise ValueError(kind)
 
 
@@ -119,7 +116,7 @@ class Exp(object):
     pass
 
 
-def predict(stages, combo, rec, srcvals, crash):
+def predict(stages, combo, rec, srcvals, crash, src_always=False):
     """reference run in the definite state `combo` (cache name -> None | list of stored values)"""
     rp = None
     for idx in reversed(range(len(stages))):
@@ -148,11 +145,16 @@ def predict(stages, combo, rec, srcvals, crash):
         if crash["kind"] == "raise":
             st = crash["stage"]
             if st == "src":
-                active, length = e.src_used, len(srcvals)
+                # (a Split reads its incoming flow into the buffer before any branch runs: documented)
+                active, length = e.src_used or src_always, len(srcvals)
             else:
                 active, length = st in e.seen, len(e.seen.get(st, []))
             if active and k < length:
                 e.trig, e.k = "raise", k
+                if st == "src" and not e.src_used:
+                    # the raising flow is only the Split's own input, the values come from the replaying Cache:
+                    # how many of them arrive before the buffer is refilled is not the property's business
+                    e.k = len(e.out)
         elif k <= len(e.out):
             e.trig, e.k = "stop", k
     e.combo = combo
@@ -211,18 +213,20 @@ def match(e, obs, check_src):
 # --------------------------------------------------------------------------------------------------------------
 # the real pipeline
 # --------------------------------------------------------------------------------------------------------------
-FORMS_ANY = ["seq", "source", "cache_alter_seq", "cache_alter_source", "cache_alter_nested", "cache_alter_tuple",
+FORMS_ANY = ["seq", "source", "cache_alter_seq", "cache_alter_source", "cache_alter_nested", "cache_alter_nested2", "cache_alter_tuple",
              "core_alter_seq", "core_alter_source", "split_seq", "split_tuple", "split_source"]
-FORMS_LONE = ["core_alter_el", "cache_alter_el", "split_el", "el"]   # only for a pipeline that is one bare Cache
+FORMS_LONE = ["core_alter_el", "cache_alter_el", "split_el", "el", "split_el_blocks"]   # only for a pipeline that is one bare Cache
 FORM_DOC = {
     "seq": "Sequence(*els).run(flow)", "source": "Source(src, *els)()",
     "cache_alter_seq": "Cache.alter_sequence(Sequence(*els))", "cache_alter_source": "Cache.alter_sequence(Source(src, *els))",
     "cache_alter_nested": "Cache.alter_sequence(Sequence(ups.., Sequence(cache, ...)))",
+    "cache_alter_nested2": "Cache.alter_sequence(Sequence(Sequence(.., last cache), downs..))",
     "cache_alter_tuple": "Cache.alter_sequence(tuple(els))", "core_alter_seq": "lena.core.alter_sequence(Sequence(*els))",
     "core_alter_source": "lena.core.alter_sequence(Source(src, *els))", "split_seq": "Split([Sequence(*els)], bufsize=None).run(flow)",
     "split_tuple": "Split([tuple(els)], bufsize=100).run(flow)", "split_source": "Split([Source(src, *els)])()",
     "core_alter_el": "lena.core.alter_sequence(cache)", "cache_alter_el": "Cache.alter_sequence(cache)",
     "split_el": "Split([cache], bufsize=None).run(flow)", "el": "cache.run(flow)",
+    "split_el_blocks": "cache.run(flow) while unfilled / Split([cache], bufsize=1).run(flow) (one block per value) once filled",
 }
 
 
@@ -271,6 +275,9 @@ class Pipe(object):
             self.base = Source(self.src, *els)
         elif f == "cache_alter_nested":
             self.base = Sequence(*(els[:first_cache] + [Sequence(*els[first_cache:])]))
+        elif f == "cache_alter_nested2":
+            last_cache = [i for i, el in enumerate(els) if isinstance(el, Cache)][-1]
+            self.base = Sequence(*([Sequence(*els[:last_cache + 1])] + els[last_cache + 1:]))
         elif f in ("cache_alter_tuple", "split_tuple"):
             self.base = tuple(els)
         elif f in FORMS_LONE:
@@ -298,6 +305,12 @@ class Pipe(object):
             return self.run_any(lena.core.alter_sequence(self.base))
         if f in ("split_seq", "split_el"):
             return Split([self.base], bufsize=None).run(self.src())
+        if f == "split_el_blocks":
+            # a bare filled Cache in a Split is hoisted into a Source by alter_sequence: it yields the stored flow
+            # once, however many blocks the incoming flow has (filling inside a many-block Split is documented as wrong)
+            if self.filled_hint:
+                return Split([self.base], bufsize=1).run(self.src())
+            return self.base.run(self.src())
         if f == "split_tuple":
             return Split([self.base], bufsize=100).run(self.src())
         if f == "split_source":
@@ -445,7 +458,7 @@ def check_history(desc):
     dropped = set()
     last_crash = None
     g = group(desc["form"])
-    check_src = desc["form"] not in ("split_seq", "split_tuple", "split_el")
+    check_src = desc["form"] not in ("split_seq", "split_tuple", "split_el", "split_el_blocks")
     pipe = None
     r = 0
     log = []
@@ -486,9 +499,10 @@ def check_history(desc):
         crash = step.get("crash")
         srcvals = src_values(desc["kind"], r, run_len(desc["n"], r))
         pipe.arm(srcvals, crash)
+        pipe.filled_hint = all(a is not None for a in state["A"]) and not rec.get("A")
         obs = execute(pipe, crash)
         combos = [dict(zip(names, c)) for c in itertools.product(*[state[n] for n in names])]
-        cands = [predict(stages, c, rec, srcvals, crash) for c in combos]
+        cands = [predict(stages, c, rec, srcvals, crash, not check_src) for c in combos]
         verdicts = [match(e, obs, check_src) for e in cands]
         ok = [e for e, v in zip(cands, verdicts) if v is None]
         uncertain = len(cands) > 1
@@ -509,15 +523,17 @@ def check_history(desc):
         if not ok:
             out, completed, exc, _ = obs
             clause = None
-            if uncertain and exc is None and completed:
+            whole = None
+            if last_crash is not None and exc is None and completed:
                 for e in cands:
                     if len(out) < len(e.out) and is_prefix(out, e.out):
                         clause = "truncated"
+                        whole = e.out
                         break
             if clause == "truncated":
                 fid = "Cache/truncated-prefix-served/" + last_crash
-                what = "%s: this run yielded %s and finished normally - the prefix stored by the interrupted run, presented as the whole flow (complete flow would be %s)" % (
-                    describe(desc, si), canon(out)[:150], canon(cands[0].out)[:150])
+                what = "%s: this run yielded %s and finished normally - a prefix stored by the interrupted run, presented as the whole flow (the complete flow is %s)" % (
+                    describe(desc, si), canon(out)[:150], canon(whole)[:150])
             else:
                 # report against the closest reference run
                 best = None
@@ -547,7 +563,7 @@ def check_history(desc):
                 else:
                     new[n].append(e.combo[n])
         state = dict((n, dedupe(new[n])) for n in names)
-        if crash and interrupted:
+        if crash and any(e.trig and e.filling for e in ok):
             last_crash = crash_kind(stages, crash)
         for n in names:
             if len(state[n]) == 1 and state[n][0] is not None:
@@ -573,6 +589,8 @@ def check_history(desc):
                     fails.append(("%s/%s/cache-file-content" % (g, phase), "%s: file of Cache(%s) holds %s, the flow was %s" % (
                         describe(desc, si), n, canon(raw)[:150], canon(want)[:150])))
                     return fails
+                if n not in ok[0].filling and si + 1 < len(desc["steps"]):
+                    continue
                 c1 = fresh_cache(desc, paths[n])
                 c2 = fresh_cache(desc, paths[n], recompute=True)
                 if c1.cache_exists() is not True or c2.cache_exists() is not False:
@@ -791,16 +809,16 @@ def body(R):
     try:
         all_forms = FORMS_ANY + FORMS_LONE
         if R.thorough:
-            scope_single_free(R, 4, 4, [(u, d) for u in range(3) for d in range(3)], all_forms, "Sequence / Source / alter_sequence / Split")
+            scope_single_free(R, 4, 4, [(0, 0), (1, 1), (2, 0), (0, 2), (2, 2)], all_forms, "Sequence / Source / alter_sequence / Split")
             scope_single_crash(R, 4, [(u, d) for u in range(3) for d in range(3)], all_forms, "Sequence / Source / alter_sequence / Split")
             scope_two_free(R, [0, 1, 3], 3, [(u, m, d) for u in (0, 1) for m in (0, 1) for d in (0, 1)],
                            ["seq", "source", "cache_alter_seq", "cache_alter_source", "cache_alter_nested", "core_alter_seq", "split_seq", "split_source"])
             scope_two_crash(R, [0, 1, 2, 3], [(u, m, d) for u in (0, 1) for m in (0, 1) for d in (0, 1)],
                             ["seq", "source", "cache_alter_seq", "cache_alter_source", "cache_alter_nested", "core_alter_seq", "split_seq", "split_source"])
             scope_pickle(R, 4)
-            scope_random(R, 30000, 8, 8)
+            scope_random(R, 20000, 8, 8)
         else:
-            scope_single_free(R, 2, 3, [(0, 0), (1, 1), (2, 0), (0, 2)], all_forms, "Sequence / Source / alter_sequence / Split")
+            scope_single_free(R, 2, 3, [(0, 0), (1, 1), (2, 2)], all_forms, "Sequence / Source / alter_sequence / Split")
             scope_single_crash(R, 3, [(0, 0), (1, 1)], all_forms, "Sequence / Source / alter_sequence / Split")
             scope_two_free(R, [2], 2, [(0, 0, 0), (1, 1, 1), (0, 1, 0)], ["seq", "source", "cache_alter_seq", "cache_alter_source", "split_seq"])
             scope_two_crash(R, [0, 2], [(1, 1, 1), (0, 0, 0)], ["seq", "cache_alter_source"])
